@@ -449,9 +449,13 @@ fn dense_end_points() -> Option<String> {
     use ivp::solout::SolOut;
     struct Osc;
     impl IVP for Osc { fn ode(&self, t: f64, y: &[f64], d: &mut [f64]) { d[0] = y[1]; d[1] = -y[0] + 0.1 * t.sin(); } }
-    struct Probe { prev: Option<Vec<f64>>, bad: Option<String>, steps: usize }
+    struct Probe { prev: Option<Vec<f64>>, bad: Option<String>, steps: usize, prev_x: Option<f64> }
     impl SolOut for Probe {
         fn solout(&mut self, xold: f64, x: &mut f64, y: &mut [f64], interp: Option<&StepInterpolant<'_>>) -> ControlFlag {
+            // C19: contiguous intervals: xold is the previous x (to rounding); the first call has xold == x
+            match self.prev_x { None => { if self.bad.is_none() && xold != *x { self.bad = Some(format!("initial callback with xold = {:e}, x = {:e}", xold, *x)); } }
+                Some(px) => { if self.bad.is_none() && !((xold - px).abs() <= 8.0 * f64::EPSILON * (px.abs() + (*x - px).abs())) { self.bad = Some(format!("callback for the step ending at x = {:e} is given xold = {:e}; the previous callback ended at {:e}", *x, xold, px)); } } }
+            self.prev_x = Some(*x);
             if let (Some(ip), Some(prev)) = (interp, self.prev.as_ref()) {
                 self.steps += 1;
                 let mut l = vec![0.0; y.len()]; let mut r = vec![0.0; y.len()];
@@ -468,10 +472,10 @@ fn dense_end_points() -> Option<String> {
         }
     }
     for (x0, xe) in [(0.0, 6.0), (6.0, 0.0)] {
-        let mut p = Probe { prev: None, bad: None, steps: 0 };
+        let mut p = Probe { prev: None, bad: None, steps: 0, prev_x: None };
         let _ = RADAU::builder().dense_output(true).build().solve(&Osc, x0, &[1.0, 0.0], xe, 1e-6.into(), 1e-9.into(), Some(&mut p));
         if let Some(b) = p.bad { return Some(format!("RADAU y''=-y+0.1 sin t on [{}, {}]: {}", x0, xe, b)); }
-        let mut p = Probe { prev: None, bad: None, steps: 0 };
+        let mut p = Probe { prev: None, bad: None, steps: 0, prev_x: None };
         let _ = BDF::builder().build().solve(&Osc, x0, &[1.0, 0.0], xe, 1e-6.into(), 1e-9.into(), Some(&mut p));
         if let Some(b) = p.bad { return Some(format!("BDF y''=-y+0.1 sin t on [{}, {}]: {}", x0, xe, b)); }
     }
@@ -1184,8 +1188,9 @@ fn event_reflection() -> Option<String> {
 /// C03: a first step that reaches xend and is then rejected must not end the run at the next accepted step: Success only at xend
 fn first_step_rejected_then_success() -> Option<String> {
     struct Forced; impl IVP for Forced { fn ode(&self, t: f64, y: &[f64], d: &mut [f64]) { d[0] = y[1]; d[1] = -25.0 * y[0] + (7.0 * t).sin(); } }
-    for m in [Method::RK23, Method::DOPRI5, Method::DOP853, Method::RADAU, Method::BDF] {
-        for &(x0, xe, fs) in &[(0.0f64, 5.0f64, 8.0f64), (0.0, 5.0, 5.0), (5.0, 0.0, 8.0), (5.0, 0.0, -8.0), (0.0, 2.0, 2.5)] {
+    for m in [Method::RK4, Method::RK23, Method::DOPRI5, Method::DOP853, Method::RADAU, Method::BDF] {
+        for &(x0, xe, fs) in &[(0.0f64, 5.0f64, 8.0f64), (0.0, 5.0, 5.0), (5.0, 0.0, 8.0), (5.0, 0.0, -8.0), (0.0, 2.0, 2.5), (0.0, 1.0, 0.25)] {
+            if m == Method::RK4 && fs * (xe - x0) < 0.0 { continue; }   // RK4 takes a signed first_step
             for dense in [false, true] {
                 let mut o = Options::builder().method(m.clone()).rtol(1e-6).atol(1e-9).dense_output(dense).build();
                 o.first_step = Some(fs);
@@ -1453,6 +1458,25 @@ fn bdf_rescaling_accuracy() -> Option<String> {
     None
 }
 
+/// C02: on a non-autonomous nonlinear problem the number of accepted steps grows like tol^(-1/q), q = 3 / 5 / 8 (RK23 / DOPRI5 / DOP853):
+/// a stage evaluated at the wrong time or an estimator of the wrong order shows as a much steeper growth
+fn step_count_law() -> Option<String> {
+    struct Na; impl IVP for Na { fn ode(&self, t: f64, y: &[f64], d: &mut [f64]) { d[0] = y[0] * t.cos(); d[1] = -y[1] * y[0] + (2.0 * t).sin(); } }
+    for (m, q, tols) in [(Method::RK23, 3.0f64, [1e-4f64, 1e-7]), (Method::DOPRI5, 5.0, [1e-5, 1e-10]), (Method::DOP853, 8.0, [1e-6, 1e-12])] {
+        for &(x0, xe) in &[(0.0f64, 10.0f64), (10.0, 0.0)] {
+            let run = |tol: f64| solve_ivp(&Na, x0, xe, &[1.0, 0.5], Options::builder().method(m.clone()).rtol(tol).atol(tol).build()).map(|s| (s.naccpt, s.status));
+            let (a, b) = match (run(tols[0]), run(tols[1])) { (Ok(a), Ok(b)) => (a, b), _ => return Some(format!("{:?}: run fails", m)) };
+            if a.1 != Status::Success || b.1 != Status::Success { return Some(format!("{:?} on [{}, {}]: status {:?} / {:?}", m, x0, xe, a.1, b.1)); }
+            let growth = b.0 as f64 / a.0 as f64;
+            let law = (tols[0] / tols[1]).powf(1.0 / q);
+            if growth > 2.5 * law {
+                return Some(format!("{:?} on [{}, {}]: {} accepted steps at tol {:e}, {} at tol {:e}: growth {:.1}, the order-{} law tol^(-1/{}) gives {:.1}", m, x0, xe, a.0, tols[0], b.0, tols[1], growth, q, q, law));
+            }
+        }
+    }
+    None
+}
+
 fn main() {
     let which = std::env::args().nth(1).unwrap_or_default();
     let r = match which.as_str() {
@@ -1463,6 +1487,7 @@ fn main() {
         "default_mass" => default_mass(),
         "matrix_dense_model" => matrix_dense_model(),
         "lu_small" => lu_small(),
+        "step_count_law" => step_count_law(),
         "bdf_rescaling_accuracy" => bdf_rescaling_accuracy(),
         "time_reflection_stiff" => time_reflection_stiff(),
         "dae_constraint" => dae_constraint(),
